@@ -5,6 +5,11 @@ HERE = os.path.dirname(os.path.dirname(os.path.abspath(__file__)))
 
 # id -> (category, technique, level text, level note, design ref)
 CHECKS = {
+ "C13": ("fault_enumeration",
+   "property-based testing with fault injection: generated coordinator call scripts; TxWal cut at every byte of each crashing call; recovered coordinator compared with an independent reference classification and driven to completion; chains of up to 3 crashes",
+   "Generated scripts of begin / votes (duplicate, late, contradicting, foreign shard) / commit / abort / complete_* / sweeps / recover() drive a real DistributedTxCoordinator with a TxWal. At each generated crash call the log is cut at EVERY byte the call wrote; for each prefix a fresh coordinator runs recover_from_wal and is compared with the harness's own classification of the records wholly inside the prefix (completed => not pending and not reversible; Prepared/Committing/Aborting => pending with exactly the accepted votes and drivable to completion; still preparing => forgotten; no locks). The generated cut continues the chain (appends after a torn tail, further crashes); the whole surviving log never holds two different completions for one transaction; an acknowledged commit()/abort() has its TxComplete record in the log on return.",
+   "Crash model: bytes after the cut are lost, none before (dropped fsync invisible). Record payloads are decoded with the product's bitcode schema (codec only). Timeouts are 1 h so wall clock never decides; the 5 s timeout of restored transactions is never awaited.",
+   "DESIGN.md section 1 C13"),
  "C10": ("fault_enumeration",
    "property-based testing with fault injection: generated protocol scripts on a real RaftNode::with_wal; WAL cut at every byte (thorough) / stratified bytes (quick) of each crashing step; obligations collected from the node's own replies; chains of up to 3 crashes",
    "Generated scripts (vote requests, appends of every shape incl. conflicts and resends, own elections, leadership + proposals, snapshot installs) drive one real RaftNode::with_wal. At each generated crash step the WAL file is cut at every byte position the step wrote (all positions in thorough and in the crash_allcuts part, record boundaries +-1 / header offsets / interior points otherwise), a node is rebuilt from each prefix and checked against the obligations the node itself created by answering (term acted on, vote granted per term incl. a behavioural probe by a competing candidate, entries acknowledged or accepted as leader), plus exact state equality when nothing was lost; the generated cut continues the chain (writes after a torn tail, further crashes).",
